@@ -167,6 +167,18 @@ class ActionTracer(MethodTable):
         action.TurnOffXYSlice: TurnOffXYSliceAction,
     }
 
+    # (turn on?, x selected by slice?, y selected by slice?) -> action type
+    runtime_actions: dict[tuple[bool, bool, bool], type] = {
+        (True, False, False): TurnOnXYAction,
+        (False, False, False): TurnOffXYAction,
+        (True, True, False): TurnOnXSliceAction,
+        (False, True, False): TurnOffXSliceAction,
+        (True, False, True): TurnOnYSliceAction,
+        (False, False, True): TurnOffYSliceAction,
+        (True, True, True): TurnOnXYSliceAction,
+        (False, True, True): TurnOffXYSliceAction,
+    }
+
     @impl(action.TurnOnXY)
     @impl(action.TurnOffXY)
     @impl(action.TurnOnXSlice)
@@ -189,12 +201,18 @@ class ActionTracer(MethodTable):
         x_tone_indices = frame.get(stmt.x_tones)
         y_tone_indices = frame.get(stmt.y_tones)
 
-        interp.trace.append(
-            self.intensity_actions[type(stmt)](
-                x_tone_indices if isinstance(x_tone_indices, slice) else x_tone_indices,
-                y_tone_indices if isinstance(y_tone_indices, slice) else y_tone_indices,
+        # the statement type only decides on/off: the slice/list form of each axis
+        # is taken from the run-time values, since the statically desugared type can
+        # be wrong when type inference cannot (or mis-) classify the operands.
+        is_on = issubclass(self.intensity_actions[type(stmt)], TurnOnAction)
+        action_type = self.runtime_actions[
+            (
+                is_on,
+                isinstance(x_tone_indices, slice),
+                isinstance(y_tone_indices, slice),
             )
-        )
+        ]
+        interp.trace.append(action_type(x_tone_indices, y_tone_indices))
         interp.trace.append(WayPointsAction(way_points=[interp.curr_pos]))
         return ()
 
